@@ -1,6 +1,19 @@
 """U-ext-result: ExternalCommand::computeCommandResult / canUpdateIfNewerWithResult (lib/BuildSystem/ExternalCommand.cpp) -- C08, C09, C10:
 what a successful command records about its outputs (one info per output, in output order: the epoch for a command-timestamp node, the
 all-zero record for a virtual node, the node's current file info otherwise), and when a command may be brought up to date without running."""
+def _mk(tr, n, obj, args, argnodes):
+    """BuildValue::makeX(...): a value of kind X; makeExistingInput(info) also carries the info"""
+    callee = tr.peel(n['inner'][0])
+    nm = (callee.get('referencedDecl') or {}).get('name') or callee.get('name', '')
+    if not nm.startswith('make'):
+        raise Exception('not a BuildValue factory: %s' % nm)
+    if nm == 'makeSuccessfulCommand':
+        return 'bv_success(%s)' % ', '.join(tr.expr(a) for a in argnodes)
+    if nm == 'makeExistingInput':
+        return 'bv_existing(%s)' % ', '.join(tr.expr(a) for a in argnodes)
+    return 'bv_make(BuildValue_Kind_%s)' % nm[4:]
+
+
 OUT = 'self->__base.outputs.ptr[%s]'
 KTH = ('(%(o)s->commandTimestamp ? (g_made[g_k].size == g_epoch && g_made[g_k].id == 0) : %(o)s->type == BuildNode_NodeType_Virtual ? (g_made[g_k].missing && g_made[g_k].id == 0 && g_made[g_k].size == 0) : '
        '(g_made[g_k].id == g_current[g_k].id && g_made[g_k].size == g_current[g_k].size && (g_made[g_k].missing != 0) == (g_current[g_k].missing != 0)))') % {'o': OUT % 'g_k'}
@@ -12,23 +25,24 @@ UNIT = {
     'name': 'extcmd_result',
     'source': 'lib/BuildSystem/ExternalCommand.cpp',
     'dumps': ['buildsystem::ExternalCommand', 'buildsystem::Command', 'BuildValue::Kind', 'buildsystem::BuildValue', 'BuildNode::NodeType', 'buildsystem::BuildNode'],
-    'types': {'StringRef': 'strref', 'basic::FileInfo': 'struct FileInfo', 'FileInfo': 'struct FileInfo', 'TaskInterface': 'struct TaskInterface', 'core::TaskInterface': 'struct TaskInterface'},
-    'type_patterns': [(r'(std::)?vector<(BuildNode|buildsystem::BuildNode) \*.*>', 'vec_node'), (r'(llvm::)?SmallVector<(basic::)?FileInfo, \d+>', 'vec_finfo'), (r'(llvm::)?SmallVectorTemplateCommon<(basic::)?FileInfo.*>', 'vec_finfo'), (r'(llvm::)?SmallVectorImpl<(basic::)?FileInfo>', 'vec_finfo'), (r'(llvm::)?ArrayRef<(basic::)?FileInfo>', 'vec_finfo')],
+    'types': {'StringRef': 'strref', 'basic::FileInfo': 'struct FileInfo', 'FileInfo': 'struct FileInfo', 'BuildValue::FileInfo': 'struct FileInfo', 'buildsystem::BuildValue::FileInfo': 'struct FileInfo', 'TaskInterface': 'struct TaskInterface', 'core::TaskInterface': 'struct TaskInterface'},
+    'type_patterns': [(r'(std::)?vector<(BuildNode|buildsystem::BuildNode) \*.*>', 'vec_node'), (r'(llvm::)?SmallVector<(basic::)?FileInfo, \d+>', 'vec_finfo'), (r'__normal_iterator<(buildsystem::)?BuildNode \*\*.*', 'struct BuildNode **'), (r'(std::)?vector<(buildsystem::)?BuildNode \*.*>::(const_)?iterator', 'struct BuildNode **'), (r'(llvm::)?SmallVectorTemplateCommon<(basic::)?FileInfo.*>', 'vec_finfo'), (r'(llvm::)?SmallVectorImpl<(basic::)?FileInfo>', 'vec_finfo'), (r'(llvm::)?ArrayRef<(basic::)?FileInfo>', 'vec_finfo')],
     'by_value': ['strref', 'struct FileInfo', 'struct TaskInterface', 'struct BuildValue'],
     'predefined_structs': ['FileInfo', 'TaskInterface'],
     'vec_types': {'vec_node': 'struct BuildNode *'},
     'value_init': {'struct FileInfo': 'finfo_zero()'},
     'struct_extra': {'BuildNode': '  size_t g_idx;\n', 'FileSystem': '', 'BuildValue': '  unsigned g_n;\n'},
     'need_fields': {'BuildValue': ['kind'], 'BuildNode': ['type', 'commandTimestamp']},
-    'no_translate': ['getFileInfo', 'getNthOutputInfo', 'getNumOutputs', 'getFileSystem', 'BuildNode::getFileInfo', 'currentEpoch', 'makeSuccessfulCommand'],
+    'no_translate': ['find', 'getFileInfo', 'getNthOutputInfo', 'getNumOutputs', 'getFileSystem', 'BuildNode::getFileInfo', 'currentEpoch', 'makeSuccessfulCommand'],
     'calls': {
         'm:@vec_node::size': 'vec_node_size', 'o:[]:@vec_node': '$o->ptr[$0]', 'range:@vec_node': ('vec_node_size', 'vec_node_at'),
         'm:BuildValue::getNthOutputInfo': 'verif_stored_info', 'm:BuildValue::getNumOutputs': 'verif_num_outputs', 'm:BuildNode::getFileInfo': 'verif_current_info',
         'm:@struct FileInfo::isMissing': '($o->missing != 0)', 'm:BuildSystem::getFileSystem': 'verif_fs',
         'm:TaskInterface::currentEpoch': 'ti_epoch', 'm:@struct TaskInterface::currentEpoch': 'ti_epoch',
-        'm:@vec_finfo::push_back': ('vec_finfo_push', 'v'), 'fn:makeSuccessfulCommand': 'bv_success', 'm:BuildValue::makeSuccessfulCommand': 'bv_success',
+        'm:@vec_finfo::push_back': ('vec_finfo_push', 'v'), 'm:@vec_node::begin': '($o->ptr)', 'm:@vec_node::end': '($o->ptr + $o->len)', 'fn:find': 'verif_find_node',
     },
-    'call_patterns': [(r'c:SmallVector<.*FileInfo, \d+>/0', 'vec_finfo_new'), (r'c:SmallVector<.*FileInfo, \d+>\(\)', 'vec_finfo_new'), (r'c:(basic::)?FileInfo/0', 'finfo_zero'), (r'c:(basic::)?FileInfo\(\)', 'finfo_zero'),
+    'call_patterns': [(r'fn:make[A-Z].*', _mk), (r'm:BuildValue::make[A-Z].*', _mk), (r'fn:operator-', '($0 - $1)'), (r'o:-:__normal_iterator<.*>', '(*$o - $0)'), (r'c:__normal_iterator<.*', '$0'), (r'o:!=:__normal_iterator<.*>', '(*$o != $0)'), (r'fn:operator!=', '($0 != $1)'),
+                      (r'c:SmallVector<.*FileInfo, \d+>/0', 'vec_finfo_new'), (r'c:SmallVector<.*FileInfo, \d+>\(\)', 'vec_finfo_new'), (r'c:(basic::)?FileInfo/0', 'finfo_zero'), (r'c:(basic::)?FileInfo\(\)', 'finfo_zero'),
                       (r'c:(llvm::)?ArrayRef<(basic::)?FileInfo>\(.*SmallVector.*\)', '$0'), (r'c:(llvm::)?ArrayRef<(basic::)?FileInfo>.*', '$0'), (r'c:(buildsystem::)?BuildValue\((buildsystem::)?BuildValue &&\)', '$0'), (r'c:(basic::)?FileInfo\((const )?(basic::)?FileInfo &+\)', '$0')],
     'prelude': '#include "models/base.h"\n#include "models/vec.h"\n#include "models/extresult.h"\n',
     'after_structs': '#include "models/extresult_after.h"\n',
@@ -44,6 +58,20 @@ UNIT = {
                 ('P:C08,P:C09', '(self->__base.outputs.len == 0) ==> (g_made[0].size == g_epoch && g_made[0].id == 0)'),
             ],
             'loops': {0: {'assigns': ['$i', 'outputInfos'], 'invariant': ['$i <= $range->len && outputInfos.len == $i', '(g_k < $i) ==> %s' % KTH_I], 'decreases': '$range->len - $i'}},
+        },
+        'ExternalCommand::getResultForOutput': {
+            'requires': ['__CPROVER_is_fresh(self, sizeof(*self))'] + NODES + ['value.g_n <= NO && value.g_n >= self->__base.outputs.len', 'g_k < self->__base.outputs.len', '__CPROVER_pointer_in_range_dfcc((char *)self->__base.outputs.ptr[g_k], (char *)node, (char *)self->__base.outputs.ptr[g_k])',
+                         'value.kind >= 0 && value.kind <= 20'],
+            'assigns': ['g_existing_info'],
+            'ensures': [
+                # a failed, cancelled or propagated-failure command never yields a usable value for its outputs; a skipped one yields "skipped"
+                ('P:C10', '(value.kind == BuildValue_Kind_FailedCommand || value.kind == BuildValue_Kind_PropagatedFailureCommand || value.kind == BuildValue_Kind_CancelledCommand) ==> RESULT.kind == BuildValue_Kind_FailedInput'),
+                ('P:C10', '(!(value.kind == BuildValue_Kind_FailedCommand || value.kind == BuildValue_Kind_PropagatedFailureCommand || value.kind == BuildValue_Kind_CancelledCommand) && value.kind == BuildValue_Kind_SkippedCommand) ==> RESULT.kind == BuildValue_Kind_SkippedCommand'),
+                # a successful command: the value of output k is the k-th recorded info (existing input with exactly that info, or missing output); a virtual output is a virtual input
+                ('P:C08', '(value.kind == BuildValue_Kind_SuccessfulCommand && self->__base.outputs.ptr[g_k]->type == BuildNode_NodeType_Virtual && !self->__base.outputs.ptr[g_k]->commandTimestamp) ==> RESULT.kind == BuildValue_Kind_VirtualInput'),
+                ('P:C08,P:C09', '(value.kind == BuildValue_Kind_SuccessfulCommand && !(self->__base.outputs.ptr[g_k]->type == BuildNode_NodeType_Virtual && !self->__base.outputs.ptr[g_k]->commandTimestamp)) ==> '
+                                '(g_stored[g_k].missing ? RESULT.kind == BuildValue_Kind_MissingOutput : (RESULT.kind == BuildValue_Kind_ExistingInput && g_existing_info.id == g_stored[g_k].id && g_existing_info.size == g_stored[g_k].size))'),
+            ],
         },
         'ExternalCommand::canUpdateIfNewerWithResult': {
             'requires': ['__CPROVER_is_fresh(self, sizeof(*self))', 'result.g_n <= NO', 'g_k < result.g_n'],
